@@ -277,7 +277,15 @@ fn c10() {
     for k in 0..tier.pick(8, 16) {
         add(json!({"producers": [[["a", 1], ["a", 2]]], "main": [["a", 4]], "flush": k % 2 == 0, "jump_k": k, "pb": pb}));
     }
-    finish(rep, jobs, "The real WorkerSink thread over a real KeyedAggregator with 1-2 producer threads x 1-2 sends (colliding and distinct keys), an awaited flush on the main thread, the timed flush expiring at every early clock read, and the drop of the last handle, all schedules within the preemption bound: a completed flush has emitted everything sent before it by that thread; across all emitted aggregates every input is counted exactly once per key (count and weight sums); after the last handle is dropped the worker emits what it holds, drops the aggregator and exits within 3 fake flush intervals (a spinning worker is reported as a livelock).");
+    // MutexSink: merges through clones racing the close
+    let mut jobs2 = Vec::new();
+    for mergers in [json!([[1]]), json!([[1, 2]]), json!([[1], [4]]), json!([[1, 2], [4]])] {
+        for join_first in [false, true] {
+            jobs2.push(Job { harness: "c10_mutex", cfg: json!({"mergers": mergers, "join_first": join_first, "pb": pb + 1}) });
+        }
+    }
+    jobs.extend(jobs2);
+    finish(rep, jobs, "MutexSink: merges through clones on 1-2 threads racing close() (everything whose merge returned before the close began is in the closed aggregate, nothing twice). The real WorkerSink thread over a real KeyedAggregator with 1-2 producer threads x 1-2 sends (colliding and distinct keys), an awaited flush on the main thread, the timed flush expiring at every early clock read, and the drop of the last handle, all schedules within the preemption bound: a completed flush has emitted everything sent before it by that thread; across all emitted aggregates every input is counted exactly once per key (count and weight sums); after the last handle is dropped the worker emits what it holds, drops the aggregator and exits within 3 fake flush intervals (a spinning worker is reported as a livelock).");
 }
 
 fn c17() {
